@@ -243,7 +243,9 @@ fn run_history_s<S: HB>(cfg: &HistCfg, mut src: Source, out: &mut RunOut, opts: 
             if let Some(e) = post_all.first().and_then(|p| p.ents.last()) {
                 let k = TKey::new(e.id, e.kheap); let vv = TVal::new(e.vheap);
                 let real = lru_mem::entry_size(&k, &vv) as u128;
-                if real != e.esize(base) { viols.push(Viol { prop: "C02", sig: "entry-size-fn".into(), msg: format!("entry_size(key heap {}, value heap {}) = {}, expected {}", e.kheap, e.vheap, real, e.esize(base)) }); }
+                // the oracles compute incoming entry sizes as declared key heap + declared value heap + entry_size(empty pair); if
+                // entry_size() were ever defined differently this ASSUMPTION of the harness fails and the run is inconclusive, not violated
+                if real != e.esize(base) { viols.push(Viol { prop: "ASSUME", sig: "entry-size-fn".into(), msg: format!("entry_size(key heap {}, value heap {}) = {}, expected {}", e.kheap, e.vheap, real, e.esize(base)) }); }
             }
             let _ = ledger_take_errors();
         }
